@@ -69,3 +69,80 @@ K('C06.g', property='C06', engine='symex', harness='C06/sector.cpp', entry='k_se
                'real-arithmetic reading (no rounding)'],
   stubs=['atan: uninterpreted function + range axioms (symex libm_axioms)',
          'NeighMoving object is raw storage: only _nSect is initialised'])
+
+# bit-precise twin of C06.g (suspect S8: 2*pi - atan(tiny) rounds to 2*pi in IEEE arithmetic)
+K('C06.g.ieee', property='C06', engine='cbmc', harness='C06/sector.cpp', entry='k_sector_define',
+  tus=['src/Neigh/NeighMoving.cpp'], cstubs='C06/atan_stub.c', cxxflags=['-fno-inline'],
+  defines={'quick': {'VF_NSECT_LO': 2, 'VF_NSECT_HI': 3}, 'thorough': {'VF_NSECT_LO': 2, 'VF_NSECT_HI': 16}},
+  unwind={'quick': 3, 'thorough': 16}, timeout_s={'quick': 600, 'thorough': 3600},
+  bounds={'quick': 'every finite IEEE double pair (dx,dy) != (0,0); nsect = 2..3', 'thorough': 'nsect = 2..16'},
+  validate={'quick': 40, 'thorough': 60},
+  what='NeighMoving::_movingSectorDefine, IEEE-754 double semantics: result in [0, nsect)',
+  out='libm accuracy beyond the stated model of atan',
+  assumptions=['atan returns any double with: x >= 0 => 0 <= atan(x) <= fl(pi/2); 0 <= x < 2^-27 => atan(x) == x; x >= 2^-27 => atan(x) >= 2^-28; odd'],
+  stubs=['atan: nondeterministic C model harness/C06/atan_stub.c (cbmc build only; native builds use libm)',
+         'NeighMoving object is raw storage: only _nSect is initialised'])
+
+
+# ---- C06.c ball-tree k-nearest-neighbour query on a tree built by the real btree_init
+def _fmax(eng, st, args, where):
+    import z3
+    from fractions import Fraction
+    a, b = args
+    if isinstance(a, (int, Fraction)) and isinstance(b, (int, Fraction)):
+        return max(a, b)
+    za = a if isinstance(a, z3.ExprRef) else z3.RealVal(a)
+    zb = b if isinstance(b, z3.ExprRef) else z3.RealVal(b)
+    return z3.If(za > zb, za, zb)
+
+
+def _fmin(eng, st, args, where):
+    import z3
+    from fractions import Fraction
+    a, b = args
+    if isinstance(a, (int, Fraction)) and isinstance(b, (int, Fraction)):
+        return min(a, b)
+    za = a if isinstance(a, z3.ExprRef) else z3.RealVal(a)
+    zb = b if isinstance(b, z3.ExprRef) else z3.RealVal(b)
+    return z3.If(za < zb, za, zb)
+
+
+def _log2_exact(x):
+    # node-count arithmetic of btree_init: arguments are small positive integers; the value is truncated to int
+    import math
+    from fractions import Fraction
+    if x <= 0:
+        return None
+    return Fraction(math.log2(float(x)))
+
+
+def _pow_exact(x, y):
+    from fractions import Fraction
+    if Fraction(y).denominator == 1 and (x != 0 or y >= 0):
+        return Fraction(x) ** int(y)
+    return None
+
+
+_TREE_SYMEX = {'overrides': {'fmax': _fmax, 'fmin': _fmin}, 'libm_exact': {'log2': _log2_exact, 'pow': _pow_exact}}
+_TREE_STUBS = ['fmax/fmin: exact maximum/minimum of two reals (no NaN)',
+               'log2/pow: exact values on the concrete integer arguments of the node-count arithmetic (log2 through the native libm value, truncated by the code)',
+               'heap row built by the harness as nheap_init does, with the finite value 4*G*D+1 (above every possible distance) in place of INFINITY']
+for _tag, _n, _d, _leaf, _kk, _metric, _tiers in (
+        ('m1', 5, 1, 1, 2, 2, ('quick', 'thorough')),
+        ('m2', 4, 2, 1, 2, 2, ('quick', 'thorough')),
+        ('m3', 6, 2, 2, 3, 2, ('thorough',)),
+        ('m4', 5, 1, 2, 3, 2, ('quick', 'thorough')),
+        # Euclidean variant ('e1', 3..4 points, 1-D, metric 1): the exact sqrt (r >= 0, r*r == x) makes z3 give up
+        # (unknown after 120 s even for 3 points); not registered
+        ):
+    K('C06.c.' + _tag, property='C06', engine='symex', harness='C06/tree.cpp', entry='k_tree_query',
+      tus=['src/Tree/ball_algorithm.cpp', 'src/Tree/neighbors_heap.cpp'],
+      defines={'all': {'VF_N': _n, 'VF_D': _d, 'VF_LEAF': _leaf, 'VF_K': _kk, 'VF_METRIC': _metric, 'VF_G': 8}},
+      tiers=_tiers, symex=_TREE_SYMEX,
+      bounds={'quick': '%d points and one target with integer coordinates |v| <= 8 in %d-D (ties and duplicates included), leaf_size %d, k = %d, %s metric' % (
+          _n, _d, _leaf, _kk, 'Manhattan (manhattan_distance)' if _metric == 2 else 'Euclidean (harness function through the dist_function argument)')},
+      timeout_ms={'quick': 120000, 'thorough': 900000}, validate={'quick': 30, 'thorough': 60}, validate_doubles='int',
+      what='btree_init (+ init_node, recursive_build, find_node_split_dim, partition_node_indices), min_dist, query_depth_first, nheap_push, nheap_largest: after the query the heap holds k distinct samples with their true distances and no other sample is closer (== the k smallest distances of the exhaustive search with the same metric)',
+      out='the library euclidean_distance (SpacePoint/ASpace machinery); INFINITY as the initial heap content; n > bound; rounding of centroid/radius arithmetic (real-arithmetic reading)',
+      assumptions=['real-arithmetic reading of centroid, radius and distance computations', 'k <= number of points'],
+      stubs=_TREE_STUBS + (['euclidean metric: harness function sqrt(sum (x1-x2)^2) passed as dist_function'] if _metric == 1 else []))
